@@ -149,3 +149,39 @@ def extract_sig():
     slices = sorted({ast.unparse(n) for n in ast.walk(iv) if isinstance(n, ast.Subscript) and "_body_lines" in ast.unparse(n.value)})
     body += f"Definition c_ctx_slices : list string := {clist(slices)}.\n"
     return body
+
+
+@register("ConstStore")
+def extract_store():
+    tree = parse("dds/store.py")
+    ps = find_def(tree, "path_segments")
+    comps = [n for n in ast.walk(ps) if isinstance(n, ast.ListComp)]
+    lc = only(comps, "path_segments comprehension")
+    if ast.unparse(lc) != "[s for s in path.split('/') if s]":
+        raise Unrecognised("path_segments: " + ast.unparse(lc))
+    tests = [n for n in ast.walk(ps) if isinstance(n, ast.If)]
+    t = only(tests, "path_segments test")
+    if ast.unparse(t.test) != "not segments or any((s in ('.', '..') for s in segments))":
+        raise Unrecognised("path_segments test: " + ast.unparse(t.test))
+    forb = [n for n in ast.walk(t.test) if isinstance(n, ast.Tuple)]
+    forbidden = [e.value for e in only(forb, "forbidden segments").elts]
+    # both LocalFileStore methods must build the location from path_segments and os.path.join only
+    lfs = find_def(tree, "LocalFileStore")
+    uses = {}
+    for m in ("sync_paths", "fetch_paths"):
+        f = find_def(lfs, m)
+        assigns = {ast.unparse(n.targets[0]): ast.unparse(n.value) for n in ast.walk(f) if isinstance(n, ast.Assign) and len(n.targets) == 1}
+        want = {"splits": "path_segments(path)", "loc_dir": "os.path.join(self._data_root, *splits[:-1])", "loc": "os.path.join(loc_dir, splits[-1])"}
+        for k, v in want.items():
+            if assigns.get(k) != v:
+                raise Unrecognised(f"LocalFileStore.{m}: {k} = {assigns.get(k)}")
+    db = parse("dds/codecs/databricks.py")
+    dst = find_def(db, "DBFSStore")
+    for m in ("sync_paths", "fetch_paths"):
+        f = find_def(dst, m)
+        assigns = {ast.unparse(n.targets[0]): ast.unparse(n.value) for n in ast.walk(f) if isinstance(n, ast.Assign) and len(n.targets) == 1}
+        if assigns.get("redir_p") != "Path('_dds_meta/').joinpath(*path_segments(dds_p))":
+            raise Unrecognised(f"DBFSStore.{m}: redir_p = {assigns.get('redir_p')}")
+    body = HEADER + "(* dds/store.py : path_segments and its uses *)\n"
+    body += f"Definition c_forbidden_segments : list string := {clist(forbidden)}.\n"
+    return body
